@@ -93,13 +93,16 @@ def reseedAllow : List ((String × String) × ReseedClass) := [
   (("cmi_logger_trial_idx", "file"), .foreignUnused)]
 
 /-- does the inventory entry meet the conditions of its class?  `stateVars`: variables the model's state record covers;
-    `seedWrites`: variables that `cmb_random_initialize` assigns in full (directly or through a callee); `memoVars`: the
+    `seedWrites`: variables that `cmb_random_initialize` assigns in full (directly or through a callee); `translated`: the functions
+    of the model (no other function may touch a modelled variable: the samplers reach the generator only by calling them); `memoVars`: the
     function-static doubles whose maintaining statements were translated (`…_prologue`) and proved pure in Props/C15.lean §5. -/
-def VarInfo.reseedOk (stateVars seedWrites memoVars : List (String × String)) (v : VarInfo) : Bool :=
+def VarInfo.reseedOk (stateVars seedWrites memoVars : List (String × String)) (translated : List String) (v : VarInfo) : Bool :=
   match v.storage with
   | .threadLocal =>
     match reseedAllow.lookup v.key with
-    | some .resetBySeed => !v.isExtern && stateVars.contains v.key && seedWrites.contains v.key
+    | some .resetBySeed =>
+      !v.isExtern && stateVars.contains v.key && seedWrites.contains v.key &&
+      (v.readers ++ v.writers).all (translated.contains ·)
     | some .memoOfArgument =>
       !v.isExtern && v.scope != "file" && v.writers.all (· == v.scope) && v.readers.all (· == v.scope) && memoVars.contains v.key
     | some .foreignUnused => v.isExtern && v.writers.isEmpty && v.readers.isEmpty
